@@ -13,6 +13,7 @@ programmer chose.
   C6  a chained comparison `a < b <= c` is written as the conjunction `a < b and b <= c`.
   C7  `True if c else False` -> `c` (`bool(c)` when c is not syntactically a boolean); `False if c else True` -> `not c`.
   C8  `[k for _ in range(n)]` with a constant k -> `[k] * n`.
+  C9  `f(**{'k': v})` with literal keys -> `f(k=v)`.
   C5  statements without effect (a bare constant expression that is not a docstring; `pass` in a block that has
       other statements) are dropped.
 
@@ -135,6 +136,20 @@ class _Canon(ast.NodeTransformer):
             t, sw = self._positive(n.test)
             if sw:
                 n.test, n.body, n.orelse = t, n.orelse, n.body
+        return n
+
+    # C9: f(**{"k": v, ...}) with literal string keys is f(k=v, ...)
+    def visit_Call(self, n):
+        self.generic_visit(n)
+        new = []
+        for k in n.keywords:
+            if k.arg is None and isinstance(k.value, ast.Dict) and k.value.keys and all(
+                    isinstance(x, ast.Constant) and isinstance(x.value, str) and x.value.isidentifier() for x in k.value.keys):
+                for kk, vv in zip(k.value.keys, k.value.values):
+                    new.append(ast.copy_location(ast.keyword(arg=kk.value, value=vv), k.value))
+            else:
+                new.append(k)
+        n.keywords = new
         return n
 
     # C4
